@@ -216,7 +216,7 @@ func main() {
 		return
 	}
 	r := report.New("C02", tier, "model_checking")
-	r.Rule = "E1: (a) every ring of 3 and 4 (thorough: 5) vertices over {0..3}^2 (thorough 5-rings over {0..2}^2), repeated vertices and self-intersections included, closed and unclosed spelling, x all 81 points of the half-integer grid over [-0.5,3.5]^2; (b) every two-ring Polygon and two-member MultiPolygon over the 504 triangles of {0..2}^2 x 49 half-integer points; (b') the same family on one polygon value per worker, rings cut from one flat buffer and edited in place between cases (answers depend on current coordinates only; caller's buffer not written); (b'') rings of 64..200 vertices (convex, with a hole, star-shaped) x 1849 lattice points; (c) every box over {0..3}^2 as *Bounds; (d) the 3-/4-vertex rings through 6 affine maps with non-representable coefficients and 2 exact scalings by 2^665 and 2^-665 at points with an exactly verified margin; (e) MultiPoint/LineString/MultiLineString/Polygon receivers with all vertex lists of length <= 2 (3 on a sub-grid) against 6 target shapes. Oracle: integer on-segment test and half-open crossing parity. Non-trivial = queries whose reference answer is OnEdge or whose ray passes through a vertex."
+	r.Rule = "E1: (a) every ring of 3 and 4 (thorough: 5) vertices over {0..3}^2 (thorough 5-rings over {0..2}^2), repeated vertices and self-intersections included, closed and unclosed spelling, x all 81 points of the half-integer grid over [-0.5,3.5]^2; (a') the same over the lattice {0,1e10,2e10} x {0,5,10} (aspect ratio 1e9, exact integers); (b) every two-ring Polygon and two-member MultiPolygon over the 504 triangles of {0..2}^2 x 49 half-integer points; (b') the same family on one polygon value per worker, rings cut from one flat buffer and edited in place between cases (answers depend on current coordinates only; caller's buffer not written); (b'') rings of 64..200 vertices (convex, with a hole, star-shaped) x 1849 lattice points; (c) every box over {0..3}^2 as *Bounds; (d) the 3-/4-vertex rings through 6 affine maps with non-representable coefficients and 2 exact scalings by 2^665 and 2^-665 at points with an exactly verified margin; (e) MultiPoint/LineString/MultiLineString/Polygon receivers with all vertex lists of length <= 2 (3 on a sub-grid) against 8 target shapes (two of them away from the origin). Oracle: integer on-segment test and half-open crossing parity. Non-trivial = queries whose reference answer is OnEdge or whose ray passes through a vertex."
 	var n, nontrivial, skipped int64
 	viol := func(fam string, c Case, scale int64, sym, det string) {
 		r.Violation(fmt.Sprintf("%s|%s|%s", fam, c.AsType, sym), map[string]interface{}{"case": c, "scale": scale, "observed": det})
@@ -388,6 +388,47 @@ func main() {
 			}
 		}
 	})
+	// (a') extreme aspect ratio: rings of 3 and 4 vertices over the 3x3 lattice
+	// {0, 1e10, 2e10} x {0, 5, 10} (integers: the arithmetic stays exact) x the
+	// lattice of query points between and on them; slopes differ by 1e-10
+	{
+		var vs []P2
+		for _, x := range []int64{0, 2e10, 4e10} {
+			for _, y := range []int64{0, 10, 20} {
+				vs = append(vs, P2{x, y})
+			}
+		}
+		var qs []P2
+		for x := int64(-1e10); x <= 5e10; x += 1e10 {
+			for y := int64(-1); y <= 21; y++ {
+				qs = append(qs, P2{x, y})
+			}
+		}
+		for nv := 3; nv <= 4; nv++ {
+			total := 1
+			for i := 0; i < nv; i++ {
+				total *= len(vs)
+			}
+			enum.Parallel(total, r.Expired, func(idx int) {
+				ring := make([]P2, nv)
+				t := idx
+				for i := 0; i < nv; i++ {
+					ring[i] = vs[t%len(vs)]
+					t /= len(vs)
+				}
+				for _, p := range qs {
+					c := Case{Polys: [][][]P2{{ring}}, AsType: "Polygon", Q: p}
+					atomic.AddInt64(&n, 1)
+					if classify(c.Polys, p) == 2 {
+						atomic.AddInt64(&nontrivial, 1)
+					}
+					if sym, det := check(c, 2); sym != "" {
+						viol("flat-ring", c, 2, sym, det)
+					}
+				}
+			})
+		}
+	}
 	// (b'') rings of many vertices: 64-, 65- and 200-gons (convex, integer
 	// vertices), a 100-gon with a 33-gon hole, and a star-shaped 128-vertex ring,
 	// closed and unclosed, x a 41x41 lattice of query points
@@ -515,6 +556,9 @@ func main() {
 			{Polys: [][][]P2{{{{0, 0}, {2, 0}, {0, 2}}}, {{{4, 4}, {6, 4}, {6, 6}}}}, AsType: "MultiPolygon"},
 			{Polys: [][][]P2{{{{0, 0}, {4, 0}, {4, 4}, {0, 4}}}}, AsType: "Bounds"},
 			{Polys: [][][]P2{{{{0, 0}, {6, 6}, {6, 0}, {0, 6}}}}, AsType: "Polygon"},
+			// targets away from the origin (the origin, a zero value, is Outside)
+			{Polys: [][][]P2{{{{2, 2}, {6, 2}, {6, 6}, {2, 6}}}}, AsType: "Polygon"},
+			{Polys: [][][]P2{{{{1, 1}, {3, 1}, {3, 3}, {1, 3}}}, {{{4, 4}, {6, 4}, {6, 6}, {4, 6}}}}, AsType: "MultiPolygon"},
 		}
 		q := grid(-1, 7)
 		sub := []P2{}
